@@ -204,7 +204,7 @@ fn run(ctx: &mut Ctx) {
         let mut ts: Vec<Track> = Vec::new();
         let pool = if i % 2 == 0 { fitted_tracks(rng, 3) } else { Vec::new() };
         let z = rng.range(-1.0, 1.0);
-        let tie_mode = rng.below(6);
+        let tie_mode = rng.below(7);
         for j in 0..k {
             if !pool.is_empty() && rng.bool() {
                 ts.push(pool[rng.usize(pool.len())].0);
@@ -221,6 +221,13 @@ fn run(ctx: &mut Ctx) {
                     vh::track_from_helix([rad * a.cos(), rad * a.sin(), z, rad, a + PI, 0.0], 0.11, 0.19)
                 }
                 3 => synthetic_track(rng, z + 0.034 * j as f64, pitch), // chained at the clustering distance
+                4 => {
+                    // axis exactly on the beamline (x0 = y0 = 0), small radius, flat / tiny pitch: the vertex fit starts
+                    // exactly on the axis of these helices
+                    let rad = rng.range(0.01, 0.05);
+                    let h = *rng.pick(&[0.0, 5e-324, -5e-324, 1e-310, 1e-17, 1e-3, 0.2]);
+                    vh::track_from_helix([0.0, 0.0, z + 0.001 * j as f64, rad, rng.range(-PI, PI), h], -1.6, 1.6)
+                }
                 _ => {
                     let zz = rng.range(-1.0, 1.0);
                     synthetic_track(rng, zz, pitch)
@@ -228,7 +235,7 @@ fn run(ctx: &mut Ctx) {
             };
             ts.push(t);
         }
-        judge_vertices(ctx, &ts, ["identical tracks", "same beamline z", "equal z and radius", "chained z", "random", "random"][tie_mode as usize]);
+        judge_vertices(ctx, &ts, ["identical tracks", "same beamline z", "equal z and radius", "chained z", "axis on the beamline", "random", "random"][tie_mode as usize]);
     });
     ctx.require("cluster_spacepoints returned", 10);
     ctx.require("track sets that produced a primary vertex", 10);
